@@ -180,13 +180,17 @@ type Sim struct {
 	fragBudget int
 	// SeenActors maps every goroutine label ever seen parked to the step it was first seen at.
 	SeenActors map[string]int
+	// runCount counts, per (goroutine, yield point), how often it was released
+	runCount map[string]int
+	// LivelockProp is the property a livelock is blamed on in this check
+	LivelockProp string
 
 	sc Scenario
 }
 
 func NewSim(ch *Chooser) *Sim {
 	return &Sim{Ch: ch, MaxSteps: 20000, Horizon: 10 * time.Minute,
-		SeenActors: map[string]int{}, violSeen: map[string]bool{}, Probes: map[string]int{}, Faults: map[string]int{},
+		SeenActors: map[string]int{}, runCount: map[string]int{}, violSeen: map[string]bool{}, Probes: map[string]int{}, Faults: map[string]int{},
 		WRun: 8, WDeliver: 4, WHarness: 4, WFault: 1}
 }
 
@@ -367,6 +371,7 @@ func (s *Sim) Run(sc Scenario) {
 		s.settle()
 		if s.Steps >= s.MaxSteps {
 			s.StepCap = true
+			s.livelock()
 			break
 		}
 		acts := s.acts[:0]
@@ -422,6 +427,7 @@ func (s *Sim) Run(sc Scenario) {
 		s.mix(a.Key)
 		if a.Class == clsRun {
 			s.Logf("run %s", a.Key)
+			s.runCount[a.Key]++
 		}
 		a.Do()
 	}
@@ -429,6 +435,29 @@ func (s *Sim) Run(sc Scenario) {
 	sc.Teardown(s)
 	s.drainAll()
 	simrt.Install(nil)
+}
+
+// livelock is called when a run hits the step cap. A run that is merely long
+// is inconclusive; but if one goroutine of gldap was released at one and the
+// same lock yield point for a quarter of all steps, it is going round in
+// circles (a read loop that never ends, a retry without end): bounded progress
+// once faults have stopped is violated.
+func (s *Sim) livelock() {
+	best, n := "", 0
+	for k, v := range s.runCount {
+		if v > n || (v == n && k < best) {
+			best, n = k, v
+		}
+	}
+	if n < s.MaxSteps/4 || !strings.Contains(best, " @lock:") || !strings.HasPrefix(best, "run") {
+		return
+	}
+	site := best[strings.Index(best, " @lock:")+7:]
+	prop := s.LivelockProp
+	if prop == "" {
+		prop = "C08"
+	}
+	s.Violate(prop, "livelock", "goroutine-spins-at "+site, fmt.Sprintf("%s was released %d times at the same yield point in a run of %d steps: it never blocks and never ends, so its connection is never closed and Stop cannot return", best, n, s.Steps))
 }
 
 // drainAll releases everything that can still run so that goroutines exit
